@@ -13,7 +13,9 @@ func VerifC01_t_reincarnationDeep() {
 
 // BOUND: topology 0; a statefulset pod (symbolic policy) bound, then gone (deleted; its event handled or still pending) so that its IP is reserved or still recorded for the key; an administrator's API release of that IP runs while, as a second logical thread starting inside any one window right before/after an API-server or IPAM call of the release (symbolic window 0..12), the same-named pod is re-created with a new UID, filtered and bound; the second thread waits (parks) wherever it needs a pod/pool key lock the release holds; afterwards another pod is scheduled. No two live pods may hold one IP and every live bound pod must own its IP
 // ASSUME: C01: two logical threads, the second starts inside one window of the first and only waits at pod/pool key locks; sync.RWMutex waits inside crdIpam are not explored (such interleavings are discarded)
-func VerifC01_q_releaseVsRebind() {
+func VerifC01_q_releaseVsRebind() { vpReleaseVsRebind("C01") }
+
+func vpReleaseVsRebind(prop string) {
 	w := vpNewWorld(0, false)
 	if err := w.configure(); err != nil {
 		return
@@ -60,7 +62,7 @@ func VerifC01_q_releaseVsRebind() {
 		return // the re-creation did not overlap the release: covered by the sequential scenarios
 	}
 	verifReach("rebind-overlapped-release")
-	w.checkAll("C01", "an API release that overlapped the re-binding of the same pod name")
+	w.checkAll(prop, "an API release that overlapped the re-binding of the same pod name")
 	// somebody else asks for an IP now
 	other := "ss-1"
 	w.createPod(vpMakePod(other, "V1", vpKindSts, "", "", ""))
@@ -70,5 +72,9 @@ func VerifC01_q_releaseVsRebind() {
 			w.setRunning(other)
 		}
 	}
-	w.checkAll("C01", "scheduling another pod afterwards")
+	w.checkAll(prop, "scheduling another pod afterwards")
 }
+
+// BOUND: topology 0; two statefulset pods ss-0, ss-1 bound (symbolic policy); ss-0 disappears without its event being handled (so a resync pass has API calls to make); a resync pass runs and, atomically inside any one window right before/after one of its API-server calls (symbolic window 0..10), ss-1 is re-incarnated: deleted, its event handled, re-created with a new UID, filtered and bound on any approved node. Afterwards no two live pods hold one IP and every live bound pod still owns its IP (a freed IP of a live pod is handed to the next pod)
+// ASSUME: C01: interference granularity as in VerifC04_q_resyncVsReincarnation (same scenario, checked under C01)
+func VerifC01_q_resyncVsReincarnation() { vpResyncVsReincarnation("C01") }
